@@ -1442,3 +1442,13 @@ package server
 //@   ensures C18.init.old-id-released: implies(old(self.inited) && old(has(self.slock.clients, self.proxys[0].clientId)) && old(ref(self.slock.clients[self.proxys[0].clientId])) == self && old(istype(self.slock.clients[self.proxys[0].clientId], *BinaryServerProtocol)), !has(self.slock.clients, old(self.proxys[0].clientId)))
 //@   ensures C18.init.announced: self.inited && self.proxys[0].clientId == clientId
 //@   modifies all
+
+// C10: "a client gets the same outcome from any node": the only answer a non-leader gives from its own table - the
+// early TIMEOUT of a concurrent-check request with timeout 0 - uses the leader's own pre-check (LockDB.Lock): the key
+// already holds MORE than the request's Count, or nothing is held and the request waits for an unlock
+//@ func (*LockDB).CheckProbableLock
+//@   requires self != nil && command != nil && !isnil(serverProtocol)
+//@   at call ProcessLockResultCommand#2 assert C10.probable.same-rule: arg2 == protocol.RESULT_TIMEOUT && command.Flag&0x08 != 0 && command.Timeout == 0 && lockManager != nil && command.Count < 0xffff && lockManager.locked > command.Count
+//@   at call ProcessLockResultCommand#1 assert C10.probable.same-rule: arg2 == protocol.RESULT_TIMEOUT && command.Flag&0x08 != 0 && command.Timeout == 0 && (lockManager == nil || lockManager.locked == 0) && command.TimeoutFlag&0x0200 != 0
+//@   ensures C10.probable.once: calls(ProcessLockResultCommand) == ite(result, 1, 0)
+//@   modifies all
